@@ -293,6 +293,11 @@ void ep_task(void *arg)
 			}
 			continue;
 		}
+		if (p->early_close && i == p->nrounds - 1 && p->closer == ep->side && r->n[me_in] > 0) {
+			/* abrupt close: the closing side does not read what the peer is sending in the last round */
+			if (r->n[me_out] > 0 && (r->mode == RM_DUPLEX) && do_write(ep, me_out, (uint64_t)r->n[me_out], (uint64_t)r->wchunk[me_out]) != 0) broken = 1;
+			break;
+		}
 		int writes = (r->mode == RM_DUPLEX) || (r->mode == RM_C2S && ep->side == 0) || (r->mode == RM_S2C && ep->side == 1);
 		int reads = (r->mode == RM_DUPLEX) || (r->mode == RM_C2S && ep->side == 1) || (r->mode == RM_S2C && ep->side == 0);
 		if (writes && r->n[me_out] > 0)
